@@ -19,13 +19,14 @@ def mc_constants(tier, D=2):
     conv_keys, up_keys = archlib.bank_keysets(D)
     S, PS, V, PV, T2 = (0, 0), (0, 1), (1, 0), (1, 1), (2, 0)
     sigs = {((S, 1),), ((S, 2), (V, 1)), ((V, 1), (S, 2)), ((PS, 1), (V, 2)), ((V, 2), (PV, 1), (S, 1))}
+    twins = ((S, 1), (PS, 2), (V, 1))          # both parities of one order with unequal channel counts, the smaller first
     if tier == "thorough":
-        sigs |= {((T2, 1), (S, 1)), ((PV, 1),), ((S, 1), (PS, 2), (V, 1))}
+        sigs |= {((T2, 1), (S, 1)), ((PV, 1),), twins}
     low = frozenset(k for k in conv_keys if k[0] <= 1)
     banks = {frozenset(conv_keys), low, frozenset({(0, 0)})}
     ups = {frozenset(up_keys), frozenset({(0, 0)})}
     dimset = {(4, 4), (4, 2), (6, 4)} if D == 2 else {(2, 2, 2), (4, 2, 2)}
-    return dict(Classes={"UNet", "ResNet", "DilResNet"}, Equivs={True, False}, DSet={D}, InSigs=sigs, OutSigs=sigs, Depths={2},
+    return dict(Classes={"UNet", "ResNet", "DilResNet"}, Equivs={True, False}, DSet={D}, InSigs=sigs, OutSigs=sigs | {twins}, Depths={2},
                 BlockSet={1, 2}, NConvs={1, 2}, NDowns={0, 1, 2}, GNs={True, False}, Preacts={True, False}, Banks=banks, UpBanks=ups,
                 DimSet=dimset)
 
@@ -115,6 +116,17 @@ def main(tier):
     rng = random.Random(core.SEED + 20)
     cases.sort(key=lambda c: core.canon(c["cfg"]))
     picks = sample_cfgs(cases, rng, 40 if tier == "quick" else 320)
+    # parity twins with unequal channel counts in the requested output (a per-type channel offset bug shows only there):
+    # two more admissible equivariant configurations per class
+    def has_twins(c):
+        outs = c["cfg"]["outs"]
+        return any(a[0][0] == b[0][0] and a[0] != b[0] and a[1] != b[1] for a in outs for b in outs)
+    picked = {core.canon(c["cfg"]) for c in picks}
+    for cls in ("UNet", "ResNet", "DilResNet"):
+        cand = sorted([c for c in cases if has_twins(c) and c["admissible"] and c["cfg"]["equiv"] and c["stuck"] == "" and c["cfg"]["cls"] == cls
+                       and core.canon(c["cfg"]) not in picked and not (cls == "DilResNet" and c["cfg"]["blocks"] > 1)], key=cost)
+        cand = cand[: max(4, len(cand) // 6)]
+        picks += rng.sample(cand, min(2 if tier == "quick" else 8, len(cand)))
     traces = core.pmap(record_case, [(i + 1, c, core.SEED + i) for i, c in enumerate(picks)], procs=14, crash_value=None)
     traces = [t for t in traces if t is not None]
     verdicts = tracelib.validate(chk, "trace/Trace_Architectures.tla", [{"tid": t["tid"], "cfg": t["cfg"], "events": t["events"]} for t in traces],
